@@ -119,10 +119,11 @@ func H04cT() { h04c(2) }
 func h04c(edits int) {
 	K := []string{"a", "b", "c", "d", "e", "f"}
 	words := vxNoisyCopy(K, []string{"g", "h"}, edits)
-	all, brk := vxEmbed(words, vxChoice(2), vxChoice(2), vxChoice(3))
+	pat := vxChoice(3)
+	all, brk := vxEmbed(words, vxChoice(2), vxChoice(2), pat)
 	in := vxText(all, brk)
 	ref := vxTwinWorld(0.8, 0, false).Match(in)
-	kind := vxChoice(5)
+	kind := vxChoice(6)
 	switch kind {
 	case 0: // insertion order
 		vxSameResults("insertion-order", ref, vxTwinWorld(0.8, vxChoice(5)+1, false).Match(in))
@@ -133,12 +134,25 @@ func h04c(edits int) {
 		c.Match([]byte("x y z a b c d e f g h"))
 		c.Normalize([]byte("new words never seen before a b c"))
 		c.MatchFrom(bytes.NewReader([]byte("a b c")))
+		// the same words in another line layout, and with a notice line added
+		_, brk2 := vxEmbed(words, 0, 0, (pat+1)%3+1)
+		twin := vxText(all, append(brk2, make([]bool, len(all))...)[:len(all)])
+		c.Match(twin)
+		c.Match(append([]byte("Copyright 2020 x\n"), in...))
 		vxSameResults("history", ref, c.Match(in))
 		vxSameResults("repeat", ref, c.Match(in))
 	case 3: // tracing enabled with a no-op tracer
 		c := vxTwinWorld(0.8, 0, false)
 		c.SetTraceConfiguration(&TraceConfiguration{TracePhases: "*", TraceLicenses: "*", Tracer: func(string, ...interface{}) {}})
 		vxSameResults("tracing", ref, c.Match(in))
+	case 5: // tracing on an input with several candidate ranges (a mangled copy before a verbatim one)
+		mangled := "a b c zzz zzz zzz d e f\n"
+		long := append([]byte(mangled), in...)
+		long = append(long, "\na b c d e f g h\n"...)
+		plain := vxTwinWorld(0.8, 0, false).Match(long)
+		c := vxTwinWorld(0.8, 0, false)
+		c.SetTraceConfiguration(&TraceConfiguration{TracePhases: "*", TraceLicenses: "*", Tracer: func(string, ...interface{}) {}})
+		vxSameResults("tracing-multi", plain, c.Match(long))
 	case 4: // MatchFrom equals Match
 		c := vxTwinWorld(0.8, 0, false)
 		r, err := c.MatchFrom(bytes.NewReader(in))
